@@ -157,6 +157,13 @@ def _ctx_table():
                                        'e': {'c': 'cmp', 'o': '>=', 'i': S(R(x))}})
     c['regex'] = lambda x: setup(_def('text-matcher', 'Z', {'c': 'matches', 'r': S(R(x))}))
     c['replace'] = lambda x: setup(_def('text-transformer', 'Z', {'c': 'replace', 'r': S('a'), 's': S(R(x), q='s')}))
+    # the REGEX / replacement STRING built from the symbol are *used*: the text contains the value
+    c['replace-regex-used'] = lambda x: setup({'k': 'file', 's': {
+        'c': 'str', 's': S('<', R(x), '>', R(x), 'a', q='s'),
+        't': {'op': 'paren', 'a': {'c': 'replace', 'r': S(R(x)), 's': S('R', q='s')}}}})
+    c['replace-string-used'] = lambda x: setup(
+        _def('text-transformer', 'Z', {'c': 'replace', 'r': S('a'), 's': S('<', R(x), '>', q='s')}),
+        {'k': 'file', 's': {'c': 'str', 's': S('banana', q='s'), 't': _ref('Z')}})
     c['glob'] = lambda x: setup(_def('file-matcher', 'Z', {'c': 'name', 'g': S(R(x))}))
     c['fname-fs'] = lambda x: setup(_def('files-source', 'Z',
                                          {'c': 'set', 'e': [{'k': 'file', 'n': S('f1', R(x)), 's': None}]}),
